@@ -19,7 +19,7 @@ func runC15(c *core.Ctx, o Options) {
 		"U2: with the state read as WaitingLogoutAnswer (the session sent the Logout itself) it sends nothing and executes changeState(ReceivedLogoutAnswer, true), which triggers the logout event (M1). " +
 		"U3: Stop sends a Logout, arms time.AfterFunc(CloseTimeout of the settings, cancel) and registers a logout-event callback that stops that timer and cancels the session. " +
 		"U4 (live registration): in no entry point is a registration on the event pool followed by a Clean of the pool before the function returns (deferred calls included), and no callback registered by the library calls Clean/Handle on the pool it is triggered from. " +
-		"U5: the event pool appends registrations, triggers them in registration order under its lock and stops at the first callback returning false. " +
+		"U6: no timer goroutine or non-Logout handler changes the state unless its tests exclude WaitingLogoutAnswer. U5: the event pool appends registrations, triggers them in registration order under its lock and stops at the first callback returning false. " +
 		"Not decided: arrival times relative to the deadline; time.AfterFunc's own behaviour."
 	s := newSess(c)
 	if s == nil {
@@ -206,6 +206,40 @@ func runC15(c *core.Ctx, o Options) {
 		}
 	}
 	c.Check(nReg >= 2, "U4", "", "registration sites found", 0, "found", "fewer than two functions register event callbacks (anchor moved)")
+	// U6: while the answer to an own Logout is awaited, nothing but the Logout handler (and the Logout/Stop entry points) changes the state:
+	// a timer goroutine or another inbound handler that overwrites WaitingLogoutAnswer makes the peer's answer look like a new Logout.
+	WLO := m.Set("WaitingLogoutAnswer")
+	nU6 := 0
+	for _, r := range s.roots() {
+		if r.Cat != "goroutine" && r.Cat != "inbound" && r.Cat != "outbound" {
+			continue
+		}
+		if r.Cat == "inbound" && strings.HasPrefix(r.Key, "Logout@") {
+			continue
+		}
+		bad := ""
+		changes := 0
+		for _, t := range s.tr.Traces(r.Fn, m.AllStates) {
+			known := m.AllStates
+			for _, e := range t.Events {
+				if e.Kind == "guard" && !e.Stale {
+					known &= e.Read
+				}
+				if e.Kind == "state" {
+					changes++
+					if known&WLO != 0 {
+						bad = fmt.Sprintf("changes the state to %s although the tests before it (%s) do not exclude WaitingLogoutAnswer: a pending logout would be overwritten and the peer's answer taken for a new Logout; path: %s", e.Name, m.SetString(known), traceStr(t))
+					}
+					known = m.AllStates &^ WLO // after an own write the state is the written one
+				}
+			}
+		}
+		if changes > 0 {
+			nU6++
+			c.Check(bad == "", "U6", r.Name(), "does not overwrite a pending logout", r.Fn.Pos(), "every state change is behind a test that excludes WaitingLogoutAnswer", bad)
+		}
+	}
+	c.Check(nU6 >= 3, "U6", "", "state-changing handlers and goroutines found", 0, fmt.Sprint(nU6), "fewer state-changing roots than confirmed by reading")
 	checkEventPool(c, "U5")
 	c.MinObl = 12
 }
